@@ -194,6 +194,25 @@ def check_case(r, s, rng, fmt):
         if S5 is not None and S6 is not None and S5 != S6:
             bad('variable-substitution', '[%myvar] does not render as the plain value would', first_diff(S6, S5))
         r.stats['relation5_checked'] += 1
+    # (6) the metadata block is a block of its own: it ends at the first blank line, however that line is spelled, and a body that
+    #     starts with a "Word: text" line stays body
+    if pairs and kind != 'yaml' and rng.random() < 0.4:
+        lead = rng.choice([b'', b'', b'Note: first body line w9001 w9002\n\n', b'Remark: w9003\nsecond line w9004\n\n'])
+        b2 = lead + body
+        ref_s, ref_f = c.out(mb + b2, E['SNIPPET']), c.out(mb + b2, E['COMPLETE'])
+        sep = rng.choice([b' ', b'\t', b'    ', b'    \t', b'  \t ', b' \t'])
+        alt = mb[:-1] + sep + b'\n' + b2
+        alt_s, alt_f = c.out(alt, E['SNIPPET']), c.out(alt, E['COMPLETE'])
+        if None not in (ref_s, ref_f, alt_s, alt_f):
+            if ref_s != alt_s:
+                bad('blank-line-spelling-changes-body', 'a whitespace-only line (%r) after the metadata block instead of an empty one changed the snippet rendering' % sep, first_diff(ref_s, alt_s))
+            elif ref_f != alt_f:
+                bad('blank-line-spelling-changes-wrapper', 'a whitespace-only line (%r) after the metadata block instead of an empty one changed the complete rendering' % sep, first_diff(ref_f, alt_f))
+            if lead and fmt == 'html' and b'w900' in lead:
+                w = re.findall(rb'w900\d', lead)[0]
+                if w not in alt_s:
+                    bad('colon-led-body-line-lost', 'the body line %r after the metadata block is missing from the snippet' % lead[:30], core.show(alt_s, 300))
+        r.stats['relation6_checked'] += 1
     if len(body) > 40:
         r.distinct.add(core.h64(src, fmt, base))
     r.sets['metadata_kinds'].add(kind)
